@@ -169,3 +169,13 @@ m("c12-source-limits-dropped", ["C12"], Y, "                    self.add_source(
 m("c12-mux-rt-dropped", ["C12"], Y, "                        comp=PMux(entires[e], rs=rs, ig=ig, iis=iis, rt=rt, limits=lim),", "                        comp=PMux(entires[e], rs=rs, ig=ig, iis=iis, limits=lim),")
 m("c12-rectifier-vdrop-dropped", ["C12"], Y, "                                    vdrop=vdrop,\n                                    rs=rs,\n", "                                    rs=rs,\n")
 m("c12-rloss-rt-dropped", ["C12"], Y, "                                    p, comp=RLoss(cname, rs=rs, rt=rt, limits=limits)", "                                    p, comp=RLoss(cname, rs=rs, limits=limits)")
+
+# ---- C13 -------------------------------------------------------------------------------------
+m("c13-pload-pwrs-default-drift", ["C13"], C, "PWRS_DEFAULT = 0.0", "PWRS_DEFAULT = 1e-3")
+m("c13-converter-iis-missing-from-schema", ["C13"], C, "            \"iis\": {\"typ\": [int, float], \"opt\": True, \"def\": IIS_DEFAULT},\n            \"rt\": {\"typ\": [int, float], \"opt\": True, \"def\": RT_DEFAULT},\n        },\n    }\n\n    def __init__(\n        self,\n        name: str,\n        *,\n        vo: float,\n        eff: float | dict,",
+  "            \"rt\": {\"typ\": [int, float], \"opt\": True, \"def\": RT_DEFAULT},\n        },\n    }\n\n    def __init__(\n        self,\n        name: str,\n        *,\n        vo: float,\n        eff: float | dict,")
+m("c13-type-gate-removed", ["C13"], C, "            if type(pval) not in cls._cparams[\"params\"][key][\"typ\"]:", "            if False and type(pval) not in cls._cparams[\"params\"][key][\"typ\"]:")
+m("c13-limits-not-forwarded", ["C13"], C, "        fparams[\"limits\"] = _get_opt(config, \"limits\", LIMITS_DEFAULT)\n        return cls(name, **fparams)", "        return cls(name, **fparams)")
+m("c13-linreg-rt-not-read", ["C13"], C, "        rt = _get_opt(config[\"linreg\"], \"rt\", RT_DEFAULT)\n        return cls(name, vo=v, vdrop=vd, ig=ig, limits=lim, iis=iis, rt=rt)", "        rt = RT_DEFAULT\n        return cls(name, vo=v, vdrop=vd, ig=ig, limits=lim, iis=iis, rt=rt)")
+m("c13-mandatory-becomes-optional", ["C13"], C, "            \"rs\": {\"typ\": [int, float], \"opt\": False},\n            \"rt\": {\"typ\": [int, float], \"opt\": True, \"def\": RT_DEFAULT},\n        },\n    }\n\n    def __init__(\n        self,\n        name: str,\n        *,\n        rs: float,\n        rt: float = 0.0,\n        limits: dict = LIMITS_DEFAULT,\n    ):",
+  "            \"rs\": {\"typ\": [int, float], \"opt\": True, \"def\": 0.0},\n            \"rt\": {\"typ\": [int, float], \"opt\": True, \"def\": RT_DEFAULT},\n        },\n    }\n\n    def __init__(\n        self,\n        name: str,\n        *,\n        rs: float,\n        rt: float = 0.0,\n        limits: dict = LIMITS_DEFAULT,\n    ):")
